@@ -163,6 +163,12 @@ const TypesSchema = `module types { namespace "urn:types"; prefix t; revision 0;
     leaf lre { type leafref { path "../e"; } }
     leaf-list llr { type leafref { path "../s"; } }
     leaf-list lli8 { type leafref { path "../i8"; } }
+    leaf-list lbits { type bits { bit x; bit y; bit z; } }
+    leaf-list lidr { type identityref { base base-id; } }
+    leaf-list lbin { type binary; }
+    leaf-list li8 { type int8; }
+    leaf-list li64 { type int64; }
+    leaf-list lu8 { type uint8; }
   }
   list ent { key k; leaf k { type string; } leaf x { type int32; } container sub { leaf y { type string; } } }
   leaf last { type string; }
